@@ -26,6 +26,7 @@ var Registry = map[string]func(*core.Run){
 	"C15": CheckC15,
 	"C16": CheckC16,
 	"C17": CheckC17,
+	"C18": CheckC18,
 	"C09": CheckC09,
 }
 
